@@ -72,6 +72,7 @@ class Ctx:
         self.replay_target: Optional[int] = None
         self.samples: List[str] = []
         self.notes: List[str] = []
+        self.check_finite = True  # ctx.grad: also ask whether a divisor of the backward pass can vanish
         self.bounds: Dict[str, Any] = {}
         self.dtype = torch.float32
         self.exact_rounding = False
@@ -314,16 +315,18 @@ class Ctx:
                 k = int(bad.reshape(-1).nonzero()[0])
                 self.replay_failures.append(dict(index=i, what=what, kind="eq", detail=f"element {k}: got {ta.reshape(-1)[k].item():.9g} expected {tb.reshape(-1)[k].item():.9g}"))
             return
-        ta, tb = self.terms_of(a), self.terms_of(b)
+        self._eq_sym(i, what, self.terms_of(a), self.terms_of(b))
+
+    def _eq_sym(self, i, what, ta, tb, kind="eq", extra=(), skip_den=False):
         if ta.shape != tb.shape:
             try:
                 shape = np.broadcast_shapes(ta.shape, tb.shape)
                 ta, tb = np.broadcast_to(ta, shape), np.broadcast_to(tb, shape)
             except ValueError:
                 self.results.append(dict(index=i, what=what, status="violated", why=f"shape {ta.shape} vs {tb.shape}"))
-                self.candidates.append(Candidate(i, what, "eq", dict(self.eng.envq), f"shape {ta.shape} vs {tb.shape}"))
+                self.candidates.append(Candidate(i, what, kind, dict(self.eng.envq), f"shape {ta.shape} vs {tb.shape}"))
                 return
-        pre = self._full_pre()
+        pre = self._full_pre() + list(extra)
         ta, tb = self._simp(pre, ta), self._simp(pre, tb)
         pairs = list(dict.fromkeys(zip(ta.reshape(-1), tb.reshape(-1))))
         res = dict(index=i, what=what, elements=int(ta.size), distinct=len(pairs), nontrivial=0, queries=0, status="proved")
@@ -346,18 +349,18 @@ class Ctx:
             if differs:
                 res["status"] = "violated"
                 res["why"] = f"differs at the witness: {tm.show(l, 160)} vs {tm.show(r, 160)}"
-                self.candidates.append(Candidate(i, what, "eq", dict(self.eng.envq), res["why"]))
+                self.candidates.append(Candidate(i, what, kind, dict(self.eng.envq), res["why"]))
                 self.results.append(res)
                 return
-        base_pre = [p for p in self.pre]
+        base_pre = [p for p in self.pre] + list(extra)
         for (l, r) in pairs:
             if l is r:
                 continue
             # first without the path condition (a stronger claim, usually an easier query), then with it
-            out = self.solver.prove_equal(base_pre, l, r) if len(pre) > len(base_pre) else {"status": "skip"}
+            out = self.solver.prove_equal(base_pre, l, r, skip_den=skip_den) if len(pre) > len(base_pre) else {"status": "skip"}
             res["queries"] += 1
             if out["status"] != "unsat":
-                out = self.solver.prove_equal(pre, l, r)
+                out = self.solver.prove_equal(pre, l, r, skip_den=skip_den)
                 res["queries"] += 1
             st = out["status"]
             if st == "unsat":
@@ -366,12 +369,155 @@ class Ctx:
                 model = self._nice_model(pre, l, r, out.get("model"), den=(st == "den-sat"))
                 res["status"] = "violated" if st == "sat" else "den"
                 res["why"] = out.get("why", f"sat: {tm.show(l, 160)} != {tm.show(r, 160)}")
-                self.candidates.append(Candidate(i, what, "eq" if st == "sat" else "den", model, res["why"]))
+                self.candidates.append(Candidate(i, what, kind if st == "sat" else "den", model, res["why"]))
                 break
             res["status"] = "inconclusive"
             res["why"] = f"solver {st} on {tm.show(l, 120)} == {tm.show(r, 120)}"
             break
         self.results.append(res)
+
+
+    # ------------------------------------------------------------------ gradients (C20)
+    def grad(self, f, xs, what: str = "", twice: bool = False):
+        """Obligation: the gradient autograd returns for the scalar f(*xs) w.r.t. every element of every x in xs equals the
+        derivative of the function the forward pass computes, for all admissible values (and is finite: denominators non-zero).
+
+        `f(*xs)` returns the scalar output tensor `y`, or `(y, leaves)` when the leaves to differentiate are tensors created
+        inside f from xs (e.g. the Parameter objects of a transform given xs as data).
+
+        Symbolic mode: the forward and the backward ATen operations both run through the engine; the forward term of y is
+        differentiated symbolically (terms.diff; non-differentiable nodes give a fresh poison variable) and z3 decides that
+        each backward term equals the corresponding partial derivative.
+        Replay: autograd on the real code vs. central finite differences of the same function."""
+        i = self._next(what)
+        if self.mode == "replay":
+            if not self._targeted(i, what):
+                return
+            base = [x.detach().clone() for x in xs]
+
+            def call(vals, need_grad):
+                vs = [v.clone().requires_grad_(need_grad) for v in vals]
+                out = f(*vs)
+                y, leaves = out if isinstance(out, tuple) else (out, vs)
+                return y, leaves
+
+            y, leaves = call(base, True)
+            # float64 where the operation preserves it, float32 with a matching step size where it casts
+            double = all(x.dtype == torch.float64 for x in xs) and y.dtype == torch.float64
+            h = 1e-5 if double else 1e-2
+            atol, rtol = (1e-5, 1e-3) if double else (3e-2, 5e-2)
+            if y.numel() != 1:
+                self.replay_failures.append(dict(index=i, what=what, kind="grad", detail=f"output is not a scalar: {tuple(y.shape)}"))
+                return
+            if not y.requires_grad:
+                gs = [None] * len(leaves)
+            else:
+                gs = torch.autograd.grad(y, leaves, allow_unused=True)
+            gs = [torch.zeros_like(b) if g is None else g.detach().reshape(b.shape).to(b.dtype) for g, b in zip(gs, base)]
+            if getattr(self, "replay_kind", None) == "den":
+                # a denominator of the backward pass vanishes here (a kink / singular point): only finiteness is claimed
+                for k, g in enumerate(gs):
+                    if not bool(torch.isfinite(g).all()) or not bool(torch.isfinite(y.detach()).all()):
+                        self.replay_failures.append(dict(index=i, what=what, kind="grad", detail=f"non-finite gradient w.r.t. input {k} (or non-finite value {y.item()})"))
+                        return
+                return
+            if twice:
+                y2, _ = call(base, False)
+                if not torch.allclose(y2.detach().double(), y.detach().double(), rtol=1e-4, atol=1e-5):
+                    self.replay_failures.append(dict(index=i, what=what, kind="grad", detail=f"function value drifts between evaluations: {y.item():.9g} then {y2.item():.9g}"))
+                    return
+            with torch.no_grad():
+                for k, b in enumerate(base):
+                    fd = torch.zeros_like(b)
+                    for j in range(b.numel()):
+                        vp = [v.clone() for v in base]
+                        vm = [v.clone() for v in base]
+                        vp[k].view(-1)[j] += h
+                        vm[k].view(-1)[j] -= h
+                        with torch.enable_grad():
+                            yp, _ = call(vp, False)
+                            ym, _ = call(vm, False)
+                        fd.view(-1)[j] = (yp.detach().double() - ym.detach().double()).item() / (2 * h)
+                    g = gs[k]
+                    bad = ~((g.double() - fd.double()).abs() <= atol + rtol * fd.double().abs())
+                    bad |= ~torch.isfinite(g)
+                    if bool(bad.any()):
+                        j = int(bad.reshape(-1).nonzero()[0])
+                        self.replay_failures.append(dict(index=i, what=what, kind="grad", detail=f"d/dx{k}[{j}]: autograd {g.reshape(-1)[j].item():.6g} vs central difference {fd.reshape(-1)[j].item():.6g} ({'float64' if double else 'float32'}, h={h})"))
+                        return
+            return
+        for x in xs:
+            if not x.requires_grad:
+                x.requires_grad_(True)
+        out = f(*xs)
+        y, leaves = out if isinstance(out, tuple) else (out, list(xs))
+        ty = self.terms_of(y)
+        if ty.size != 1:
+            self.results.append(dict(index=i, what=what, status="violated", why=f"output is not a scalar: {ty.shape}"))
+            self.candidates.append(Candidate(i, what, "grad", dict(self.eng.envq), f"output is not a scalar {ty.shape}"))
+            return
+        ty = ty.reshape(-1)[0]
+        if y.requires_grad:
+            gs = torch.autograd.grad(y, leaves, allow_unused=True)
+        else:
+            gs = [None] * len(leaves)
+        if twice:
+            y2 = f(*xs)
+            y2 = y2[0] if isinstance(y2, tuple) else y2
+            self._eq_sym(i, what + " [same value when evaluated again]", self.terms_of(y2).reshape(-1), np.array([ty], dtype=object), kind="grad")
+        lhs, rhs = [], []
+        poisoned = None
+        for x, g in zip(xs, gs):
+            tx = self.terms_of(x).reshape(-1)
+            if not all(t.op == "v" for t in tx):
+                raise RuntimeError("ctx.grad: inputs must be symbolic leaves")
+            tg = self.terms_of(g).reshape(-1) if g is not None else np.array([tm.ZERO] * tx.size, dtype=object)
+            if tg.size != tx.size:
+                self.results.append(dict(index=i, what=what, status="violated", why=f"gradient shape {tuple(g.shape)} vs input {tuple(x.shape)}"))
+                self.candidates.append(Candidate(i, what, "grad", dict(self.eng.envq), "gradient shape differs from input shape"))
+                return
+            D = tm.diff([ty], list(tx))[0]
+            for t in D:
+                if poisoned is None and any(n.startswith(tm.POISON_PREFIX) for n in tm.free_vars([t])):
+                    poisoned = t
+            lhs += list(tg)
+            rhs += list(D)
+        if poisoned is not None:
+            why = "a rounding / integer cast lies on the differentiable path: the derivative of the forward term is undetermined there while autograd returns a fixed value"
+            self.results.append(dict(index=i, what=what, status="violated", why=why))
+            self.candidates.append(Candidate(i, what, "grad", dict(self.eng.envq), why))
+            return
+        a = np.empty(len(lhs), dtype=object)
+        b = np.empty(len(rhs), dtype=object)
+        for k in range(len(lhs)):
+            a[k], b[k] = lhs[k], rhs[k]
+        # generic inputs (the property excludes kinks): no comparison that the forward or backward terms branch on is at equality
+        generic = []
+        seen = set()
+        for n in tm.postorder([ty] + lhs + rhs):
+            if n in seen:
+                continue
+            if n.op in ("<", "<="):
+                seen.add(n)
+                generic.append(tm.ne(n.args[0], n.args[1]))
+            elif n.op == "fn" and n.args[0] == "sqrt":
+                seen.add(n)
+                generic.append(tm.lt(tm.ZERO, n.args[1]))
+            elif n.op == "fn" and n.args[0] == "log":
+                seen.add(n)
+                generic.append(tm.lt(tm.ZERO, n.args[1]))
+            elif n.op == "/":
+                seen.add(n)
+                generic.append(tm.ne(n.args[1], tm.ZERO))
+        # finite gradients: can a divisor of the backward terms vanish for admissible (not necessarily generic) inputs?
+        pre0 = self._full_pre()
+        ok, dst, dmodel, culprit = self.solver.denominators_nonzero(pre0, [t for t in lhs if t is not None][:64]) if self.check_finite else (True, "skip", None, None)
+        if not ok and dst == "sat":
+            self.candidates.append(Candidate(i, what, "den", self._complete(dmodel), f"a divisor of the backward pass may vanish: {tm.show(culprit, 160)}"))
+            self.notes.append(f"{what}: a divisor of the backward pass can vanish ({tm.show(culprit, 80)}); finiteness of the real gradient there is decided by replay")
+        elif not ok:
+            self.notes.append(f"{what}: finiteness at non-generic inputs undecided (solver {dst} on a divisor)")
+        self._eq_sym(i, what, a, b, kind="grad", extra=generic, skip_den=True)
 
     def true(self, cond, what: str = ""):
         """Obligation: boolean tensor / term is true for all admissible values."""
@@ -558,6 +704,9 @@ def _run_path(fn, params, tier, seed, name, override, path_no, extra_pre=()):
         if ctx.exact_rounding or not decimals or decimals < 6 or out is not None:
             return _orig_round(tensor, decimals=decimals, out=out)
         ctx.rounding_stubbed += 1
+        if getattr(ctx, "round_detach", False):
+            # gradient obligations (C20): value identity, zero gradient - what rounding does to autograd
+            return tensor.detach()
         return tensor
 
     _dg.round_decimals = _round_stub
@@ -595,7 +744,7 @@ def _run_path(fn, params, tier, seed, name, override, path_no, extra_pre=()):
     _dg.round_decimals = _orig_round
     # ---------------- replay candidates against the real code without the engine
     for c in ctx.candidates:
-        rep = replay(fn, params, tier, seed, c.model, (c.index, c.what) if c.kind != "crash" else None)
+        rep = replay(fn, params, tier, seed, c.model, (c.index, c.what) if c.kind != "crash" else None, kind=c.kind)
         sig = f"{name}|{c.what}|{c.kind}|{c.detail}"
         if c.kind == "crash":
             reproduced = rep.get("crash") is not None and rep["crash"]["exc"] == crash["exc"]
@@ -608,6 +757,8 @@ def _run_path(fn, params, tier, seed, name, override, path_no, extra_pre=()):
                  model={k: (float(v_) if not isinstance(v_, bool) else v_) for k, v_ in c.model.items() if v_ is not None}, signature=sig)
         if reproduced:
             out["violations"].append(v)
+        elif c.kind == "den" and "backward pass" in c.detail:
+            ctx.notes.append(f"{c.what}: {c.detail} - the real gradient there is finite (guarded in the real code)")
         elif c.kind == "den":
             out["inconclusive"].append(f"{c.what}: {c.detail} (not reproduced as a violation)")
         else:
@@ -724,20 +875,21 @@ def run_obligation(fn: Callable, params: dict, tier: str, seed: int, name: str, 
     return out
 
 
-def replay(fn, params, tier, seed, model, target_index=None) -> dict:
+def replay(fn, params, tier, seed, model, target_index=None, kind=None) -> dict:
     """Run the harness function on concrete tensors built from `model`, without the engine: first in the
     precision users run (float32, loose tolerance), then in double precision (tight tolerance)."""
-    r32 = _replay_once(fn, params, tier, seed, model, target_index, double=False)
+    r32 = _replay_once(fn, params, tier, seed, model, target_index, double=False, kind=kind)
     if r32["failures"] or r32["crash"] is not None:
         r32["precision"] = "float32"
         return r32
-    r64 = _replay_once(fn, params, tier, seed, model, target_index, double=True)
+    r64 = _replay_once(fn, params, tier, seed, model, target_index, double=True, kind=kind)
     r64["precision"] = "float64"
     return r64
 
 
-def _replay_once(fn, params, tier, seed, model, target_index, double) -> dict:
+def _replay_once(fn, params, tier, seed, model, target_index, double, kind=None) -> dict:
     ctx = Ctx("replay", tier, seed, model=model)
+    ctx.replay_kind = kind
     ctx.replay_double = double
     if not double:
         ctx.rtol, ctx.atol = 2e-3, 2e-3
